@@ -279,6 +279,10 @@ type c07BCase struct {
 func c07BGen(t *rapid.T) c07BCase {
 	c := c07BCase{Kind: rapid.SampledFrom([]string{"ljh22", "ljh3", "off"}).Draw(t, "kind")}
 	c.Nsamp = rapid.SampledFrom([]int{1, 2, 3, 5, 8, 13, 30, 100, 257}).Draw(t, "nsamp")
+	if c.Kind == "ljh3" && rapid.IntRange(0, 999).Draw(t, "longrecord") == 437 {
+		// a very long LJH3 record (as long as the writer's own buffer): a few cases per shard, each fills the queue with 65 kB records
+		c.Nsamp = rapid.SampledFrom([]int{32768, 32768, 40000}).Draw(t, "longnsamp")
+	}
 	c.NBases = rapid.IntRange(1, 5).Draw(t, "nbases")
 	c.PipeSize = rapid.SampledFrom([]int{4096, 8192, 65536}).Draw(t, "pipe")
 	c.Before = rapid.IntRange(0, 7).Draw(t, "before")
@@ -333,7 +337,7 @@ var c07Counter int
 func c07Sample(rec, i int) uint16 { return uint16(rec*977 + i*31 + 3) }
 
 func c07BRun(c c07BCase) (v vVerdict) {
-	if c.Nsamp < 1 || c.Nsamp > 2000 || c.NBases < 1 || c.NBases > 16 || c.MaxTries < 1 {
+	if c.Nsamp < 1 || c.Nsamp > 70000 || c.NBases < 1 || c.NBases > 16 || c.MaxTries < 1 {
 		return v
 	}
 	c07Counter++
@@ -367,8 +371,16 @@ func c07BRun(c c07BCase) (v vVerdict) {
 		}
 		return b
 	}
+	// LJH3 records may differ in length: next to very long records there are short ones (one queue entry or several per record,
+	// so the queue fills up at varying points of a record)
+	nsampOf := func(k int) int {
+		if c.Kind == "ljh3" && c.Nsamp >= 32768 && k%3 == 1 {
+			return 7
+		}
+		return c.Nsamp
+	}
 	samples := func(k int) ([]uint16, []byte) {
-		s := make([]uint16, c.Nsamp)
+		s := make([]uint16, nsampOf(k))
 		var b []byte
 		for i := range s {
 			s[i] = c07Sample(k, i)
@@ -398,7 +410,7 @@ func c07BRun(c c07BCase) (v vVerdict) {
 		writeRec = func(k int) error { s, _ := samples(k); return w.WriteRecord(int32(3), int64(k), int64(1000+k), s) }
 		recBytes = func(k int) []byte {
 			_, sb := samples(k)
-			b := append(le(uint64(c.Nsamp), 4), le(3, 4)...)
+			b := append(le(uint64(nsampOf(k)), 4), le(3, 4)...)
 			b = append(b, le(uint64(k), 8)...)
 			b = append(b, le(uint64(1000+k), 8)...)
 			return append(b, sb...)
